@@ -7,7 +7,8 @@ Line-protocol adapter of the C06 model (`BsVerif/Model/Value.lean`).
   C06 ty <id> <kind> ...                                  one type declaration of the graph the debugger parsed
   C06 mem <addr> <hex>                                    a block of the debuggee's memory (from /proc/<pid>/mem)
   C06 memreset                                            forget the memory image (the debuggee ran)
-  C06 discrkey <w> <raw>                                  key of an enum variant whose DW_AT_discr_value is the w-byte constant raw
+  C06 discrkey <w> <raw>                                  key of a variant of an enum with an unsigned w-byte tag whose DW_AT_discr_value is the w-byte constant raw
+  C06 constkey <raw>                                      key of an enumerator (DW_FORM_udata raw) of a C-like enum with an unsigned underlying type
   C06 val <v|d> <xname> <type id> <addr>                  decode `size(type)` bytes at addr → canonical rendering
   C06 val s <xname> <type id> <addr> <from> <to>          pointer slice
 -/
@@ -134,7 +135,7 @@ def step (s : St) : List String → St × String
   | ["memreset"] => ({ s with blocks := #[] }, "ok")
   | ["constkey", raw] =>
     match decNat? raw with
-    | some r => (s, match constKey r with | some k => toString k | none => "-")
+    | some r => (s, match constKey r with | some k => (if k < 0 then "m" ++ toString k.natAbs else toString k) | none => "-")
     | none => (s, "bad-op")
   | ["discrkey", w, raw] =>
     match decNat? w, decNat? raw with
